@@ -236,6 +236,11 @@ def pre_valid(ctx, rule="PRE-VALID"):
                   "create_table inserts into %s without a dominating, propagated check_rows on the same rows and schema (%s): a late refusal leaves the table half created" % (lab, why),
                   f.loc(t["sp"]), fn=f.name, key="%s|create|%s" % (rule, lab))
         if lab == "_Validation":
+            dels = [c for c in cs if c[1] == "msi::internal::package::Package::<F>::delete_rows" and label(prog, f, c[3], du) == "[_Validation]"]
+            okd = len(dels) == 1 and dels[0][0] in dom.get(b, ()) or (len(dels) == 1 and b not in cfg.reachable(f, 0, avoid={dels[0][0]} | {
+                tg for bl in f.blocks if not bl["cleanup"] and bl["term"]["t"] == "switch" and "contains_key(&*p1.tables" in Sy.val(bl["term"]["discr"]) for (v, tg) in bl["term"]["cases"] if v == 0}))
+            ctx.check(okd, rule, "create_table: stale _Validation rows are deleted before the insert", "", "create_table inserts into _Validation without first deleting stale rows for the same table "
+                      "name: a file that describes an absent table makes the insert fail (AlreadyExists) after the other catalog inserts", f.loc(t["sp"]), fn=f.name, key="%s|create|stale" % rule)
             ctx.check(has_fact(Sy, b, r"BTreeMap::<K, V, A>::contains_key\(&\*p1\.tables,.*_Validation", True), rule, "create_table: _Validation insert is optional", "",
                       "the _Validation insert is not guarded by tables.contains_key(_Validation): a package without that table fails after the other inserts", f.loc(t["sp"]), fn=f.name)
     ctx.floor(rule, "catalog inserts in create_table_with_name", n, 3)
